@@ -203,7 +203,9 @@ def c19_event(run, d, cur_writer):
     ok = d.get("outcome") == "ok" and "streams" in d
     ev = {"ev": "c19", "origin": run["id"], "dumpNo": d.get("dump_no", 1), "outcome": d.get("outcome"), "memCount": -1, "expMem": -2, "memOk": False,
           "blamedListed": False, "excCtxRva": -1, "excCtxSize": -1, "blamedCtxRva": -2, "skip": bool(cur_writer.get("skip")),
-          "principalGiven": cur_writer.get("principal") not in (None, "unset"), "principalResolves": False, "nStacks": -1, "entryOk": True, "userOk": True}
+          "principalGiven": cur_writer.get("principal") not in (None, "unset"), "principalResolves": False, "nStacks": -1, "entryOk": True, "userOk": True,
+          # the caller's settings a dump changed; the settings in force (as a key); the stack sizes of the threads that do not move between dumps
+          "cfgChanged": ",".join(sorted(d.get("cfg_changed", []))), "cfgKey": json.dumps(cur_writer, sort_keys=True), "parkedStacks": []}
     if not ok:
         return ev
     st = d["streams"]
@@ -221,6 +223,8 @@ def c19_event(run, d, cur_writer):
     if cur_writer.get("sanitize"):
         # sanitised stacks differ from target memory by design (C12 judges their bytes)
         live_stacks |= {t["stack_start"] for t in ths}
+    parked = {t["tid"]: k for k, t in enumerate(report["threads"]) if t.get("mode") == "pause"}
+    ev["parkedStacks"] = [[parked[t["tid"]], t["stack_size"]] for t in ths if t["tid"] in parked]
     mem_ok = all((m["mismatch"] == -1 and not m.get("outside")) or m["start"] in live_stacks for m in d["oracle"]["mem_compare"])
     ev.update({"memCount": st["memlist"]["count"], "expMem": nstacks + len(cur_writer.get("app_memory", [])) + ipwin, "memOk": mem_ok,
                "blamedListed": bt is not None, "excCtxRva": st["exception"]["ctx_rva"], "excCtxSize": st["exception"]["ctx_size"],
